@@ -1398,7 +1398,8 @@ func mergeNewBlockRound(w *W, idx int) {
 
 // ---------------------------------------------------------------------------------------------
 // C06: key take-overs across blocks under real parallelism. Block 0 is full of keyed rows
-// ("pre-i"); every "deleter" deletes keys of its own share of them, every "taker" re-keys rows it
+// ("pre-i"); every "deleter" deletes keys of its own share of them (every second one frees them by
+// re-keying the row instead), every "taker" re-keys rows it
 // owns in block 1 to the keys of one deleter as soon as they are free (SetKey fails while the key
 // exists). Each key has exactly one deleter and one taker, so no two transactions ever create the
 // same key (that would be KF-KEY-CHECK-THEN-ACT); what is exercised is the order in which commits
@@ -1456,7 +1457,12 @@ func keyTakeoverRound(w *W, idx int) {
 			for j := 0; j < perPair; j++ {
 				key, other := fmt.Sprintf("pre-%d", p*1000+j), fmt.Sprintf("pre-%d", p*1000+500+j)
 				P.Query(func(txn *column.Txn) error {
-					txn.DeleteKey(key)
+					if p%2 == 1 {
+						// frees the key by giving the row another one (the store to v comes after the key in the transaction)
+						txn.QueryKey(key, func(r column.Row) error { r.SetKey("moved-" + key); r.MergeInt64("v", 1); return nil })
+					} else {
+						txn.DeleteKey(key)
+					}
 					return txn.QueryKey(other, func(r column.Row) error { r.MergeInt64("v", 1); return nil })
 				})
 			}
@@ -1489,7 +1495,7 @@ func keyTakeoverRound(w *W, idx int) {
 	bad, compared := "", 0
 	for p := 0; p < pairs && bad == ""; p++ {
 		for j := 0; j < perPair && bad == ""; j++ {
-			for _, key := range []string{fmt.Sprintf("pre-%d", p*1000+j), fmt.Sprintf("own-%d-%d", p, j), fmt.Sprintf("pre-%d", p*1000+500+j)} {
+			for _, key := range []string{fmt.Sprintf("pre-%d", p*1000+j), fmt.Sprintf("own-%d-%d", p, j), fmt.Sprintf("pre-%d", p*1000+500+j), fmt.Sprintf("moved-pre-%d", p*1000+j)} {
 				po, ro := int64(-1), int64(-1)
 				var pv, rv int64
 				P.QueryKey(key, func(r column.Row) error { po = int64(r.Index()); pv, _ = r.Int64("v"); return nil })
@@ -1512,4 +1518,117 @@ func keyTakeoverRound(w *W, idx int) {
 	if bad != "" {
 		w.Violate(idx, caseID, "[key-replica] deleters free keys of block-0 rows while takers re-key block-1 rows to them: "+bad, "", map[string]any{"idx": idx})
 	}
+}
+
+// ---------------------------------------------------------------------------------------------
+// C02 / C11: reservations beside rollbacks. Some transactions insert a row and stay open, others
+// insert and roll back, all started together (they contend for the fill-list lock). With the
+// rolling-back ones finished and the open ones still open the collection is quiescent: Count()
+// must equal the number of rows a Range visits (committed rows + reserved offsets, which are
+// visible: KF-INFLIGHT-INSERT) - a rollback must not take anything but its own reservation with
+// it. Then the open ones commit: offsets pairwise distinct, every row holds what its insert
+// stored, Count() == rows visited == committed rows. Collections are filled to just below / exactly
+// to a block boundary, where a wrong count also misdirects the next reservation.
+
+func reserveRound(w *W, idx int) {
+	caseID := fmt.Sprintf("E3:reserve-beside-rollback:round%d", idx)
+	w.Begin(idx, caseID)
+	fail := func(detail string) { w.Violate(idx, caseID, detail, "", map[string]any{"idx": idx}) }
+	bursts := 60
+	if w.Thorough() {
+		bursts = 400
+	}
+	var checks, rollbacks int64
+	for _, pre := range []int{0, 16383 - 3, 16384, 16384 + 70} {
+		c := column.NewCollection(column.Options{Capacity: 64, Vacuum: 1 << 40})
+		c.CreateColumn("id", column.ForInt64())
+		c.Query(func(txn *column.Txn) error {
+			for i := 0; i < pre; i++ {
+				txn.Insert(func(r column.Row) error { r.SetInt64("id", -int64(r.Index())-1); return nil })
+			}
+			return nil
+		})
+		committed := pre
+		count := func() (int, int) {
+			rows := 0
+			c.Query(func(txn *column.Txn) error { return txn.Range(func(uint32) { rows++ }) })
+			return c.Count(), rows
+		}
+		for b := 0; b < bursts; b++ {
+			const holders, aborters = 3, 5
+			start, release := make(chan struct{}), make(chan struct{})
+			var reserved, finished sync.WaitGroup
+			offs := make([]uint32, holders)
+			reserved.Add(holders)
+			finished.Add(holders)
+			for h := 0; h < holders; h++ {
+				h := h
+				go func() {
+					defer finished.Done()
+					<-start
+					c.Query(func(txn *column.Txn) error {
+						off, _ := txn.Insert(func(r column.Row) error { r.SetInt64("id", int64(b)<<20|int64(h+1)); return nil })
+						offs[h] = off
+						reserved.Done()
+						<-release
+						return nil
+					})
+				}()
+			}
+			var aborted sync.WaitGroup
+			aborted.Add(aborters)
+			for a := 0; a < aborters; a++ {
+				go func() {
+					defer aborted.Done()
+					<-start
+					for k := 0; k < 4; k++ {
+						c.Query(func(txn *column.Txn) error {
+							txn.Insert(func(r column.Row) error { r.SetInt64("id", 0); return nil })
+							return errAbort
+						})
+						atomic.AddInt64(&rollbacks, 1)
+					}
+				}()
+			}
+			close(start)
+			reserved.Wait()
+			aborted.Wait()
+			// quiescent, three inserts open
+			cnt, rows := count()
+			checks++
+			if cnt != rows || rows != committed+holders {
+				fail(fmt.Sprintf("%d committed rows, %d inserts open (offsets %v), %d transactions inserted and rolled back meanwhile, nothing else running: Count()=%d, Range visits %d rows, expected %d", committed, holders, offs, aborters*4, cnt, rows, committed+holders))
+				close(release)
+				finished.Wait()
+				c.Close()
+				return
+			}
+			close(release)
+			finished.Wait()
+			committed += holders
+			seen := map[uint32]bool{}
+			for h, off := range offs {
+				var id int64
+				c.QueryAt(off, func(r column.Row) error { id, _ = r.Int64("id"); return nil })
+				if seen[off] || id != int64(b)<<20|int64(h+1) {
+					fail(fmt.Sprintf("after the open inserts committed: offsets %v; row %d holds id %#x, its insert stored %#x (an offset was handed out twice or to a live row)", offs, off, id, int64(b)<<20|int64(h+1)))
+					c.Close()
+					return
+				}
+				seen[off] = true
+			}
+			cnt, rows = count()
+			checks++
+			if cnt != rows || rows != committed {
+				fail(fmt.Sprintf("after the open inserts committed: Count()=%d, Range visits %d rows, %d rows were committed", cnt, rows, committed))
+				c.Close()
+				return
+			}
+		}
+		c.Close()
+	}
+	w.Stat("reservations_held_open_beside_rollbacks", checks/2*3)
+	w.Stat("rollbacks_beside_open_reservations", rollbacks)
+	w.Stat("count_comparisons", checks)
+	w.Eval(hashOf("reserve", idx), checks > 0)
 }
